@@ -10,7 +10,7 @@ def run(repo, res):
     from . import sampleorder
 
     res.rule("R16.3", "sample nodes are identified by ts.samples() / the NODE_IS_SAMPLE bit, never by position in the node table: num_samples is used as a count only (no slice bound, no id range, no ordering comparison with a node id)")
-    sampleorder.run(repo, res, "R16.3")
+    sampleorder.run(repo, res, "R16.3", floor=2, scope=["prior"])
     res.rule("R16.1", "in make_discretised_prior a user array reaches fill_priors only through np.sort, the three validation guards (>= 2 points, no negative, no duplicate -> ValueError) and the conversion to the coalescent scale; an integer only through create_timepoints, which returns the sorted quantile set with a literal 0 prepended")
     res.rule("R16.2", "in fill_priors the non-fixed node list is the complement of ts.samples(); each row is stored as concatenate([0], diff(cdf)) (first cell the literal 0) with the CDF evaluated on the coalescent-scale timepoints and divided by its maximum; standardize() runs on every path to the return and nothing writes the grid afterwards; the stored timepoints are the natural-scale image of the very array the CDFs were evaluated on")
     f = repo.fn("prior", "MixturePrior.make_discretised_prior")
@@ -87,7 +87,7 @@ def run(repo, res):
     res.require(rm is not None and U(rm).replace(" ", "") == "self.grid_data[:,1:].max(axis=1)", "R16.2", "node_time_class.NodeTimeValues.standardize scales each row by its largest entry", f"`{U(rm)}`", repo.loc(sd))
 
 
-VARIANTS = [dict(v, rule="R16.3") for v in __import__("sa.rules.sampleorder", fromlist=["VARIANTS"]).VARIANTS] + [
+VARIANTS = [dict(v, rule="R16.3") for v in __import__("sa.rules.sampleorder", fromlist=["VARIANTS"]).VARIANTS if v["mod"] == "prior"] + [
     dict(name="user-grid-unsorted", mod="prior", expect="fire", rule="R16.1", old="                timepoints = np.sort(\n                    timepoints.astype(node_time_class.FLOAT_DTYPE, casting=\"safe\")\n                )", new="                timepoints = (\n                    timepoints.astype(node_time_class.FLOAT_DTYPE, casting=\"safe\")\n                )"),
     dict(name="duplicate-check-dropped", mod="prior", expect="fire", rule="R16.1", old="            elif np.any(np.unique(timepoints, return_counts=True)[1] > 1):\n                raise ValueError(\"Timepoints cannot have duplicate values\")\n", new=""),
     dict(name="user-grid-modified", mod="prior", expect="fire", rule="R16.1", old="            timepoints = population_size.to_coalescent_timescale(timepoints)\n        else:", new="            timepoints = population_size.to_coalescent_timescale(timepoints)\n            timepoints = np.unique(np.append(timepoints, 0))\n        else:"),
